@@ -164,7 +164,14 @@ Program decode(const Case &c) {
     Prng     rng{seed * 0x100000001B3ULL + uint64_t(p.theme)};
     std::vector<std::string> base;
     switch (p.theme) {
-        case 0: base = kp.small; break;
+        case 0:
+            base = kp.small;
+            if (c.gen2 >= 2) { // a key and the key plus one unit with the same hash (t / ti ...), and names that differ in the first unit only
+                for (const char *k : {"t", "ti", "l", "la", "m", "mb", "year", "pear"}) {
+                    base.push_back(k);
+                }
+            }
+            break;
         case 1: base = kp.low8a; p.collisions = true; break;
         case 2: base = kp.low8zero; p.collisions = true; break;
         case 3:
